@@ -28,6 +28,7 @@ type HarnessResult struct {
 	Paths      int                 `json:"paths"`
 	ByStatus   map[string]int      `json:"by_status"`
 	Forks      int                 `json:"forks"`
+	Decisions  int                 `json:"decisions"`
 	Solver     map[string]int      `json:"solver"`
 	SolverTime float64             `json:"solver_time_s"`
 	Asserts    []*engine.AssertSite `json:"asserts"`
@@ -192,6 +193,7 @@ func main() {
 		r.Paths = s.Paths
 		r.ByStatus = s.ByStatus
 		r.Forks = s.Forks
+		r.Decisions = s.Decisions
 		r.Solver = map[string]int{"calls": s.SolverCalls, "sat": s.SolverSat, "unsat": s.SolverUnsat, "unknown": s.SolverUnknown, "cvc5_int_calls": s.AltCalls, "cvc5_int_decided": s.AltDecided, "cut_unknown": s.CutUnknown}
 		r.SolverTime = s.SolverTime.Seconds()
 		r.Unsupported = s.Unsupported
